@@ -25,6 +25,4 @@ PARTIAL = ["C05_cqm_refines_spec_remove_variable_partial: the refinement M -> S 
            "replay of view add_linear/set_linear/add_quadratic/remove_variable, fix_variable and the move path), not by proof",
            "ExprInv preservation is proved for enforce_variable, reindex_variables, Expression::remove_variable (view level) and "
            "the move path; remove_variables (bulk path, not reachable from the Python API, not replayed either) and "
-           "substitute_variable (replayed) are modelled but not proved",
-           "C05_fix_variable_discrete_mark_refuted: the documented discrete-mark rule of fix_variable/flip_variable is NOT what the "
-           "pinned code does (reported defects; histories in mode 'spec' flag them)"]
+           "substitute_variable (replayed) are modelled but not proved"]
